@@ -119,7 +119,7 @@ class Transition:
                     return T.replay_check(chk, ob, prog, db.schema, m, S, label)
                 return rp
             for label, f in T.oracle(ex, S):
-                ob.verify(ex, label, f, describe, replay=(None if getattr(T, 'no_replay', False) else mk_replay(label)), known=getattr(T, 'known', None))
+                ob.verify(ex, label, f, describe, replay=(None if (getattr(T, 'no_replay', False) or not T.replayable(label)) else mk_replay(label)), known=getattr(T, 'known', None))
             # reachability witness, validated against the real build
             if len(ob.witnesses) < T.witness_count and ex.solver.check(*(ex.env.get('small_model', []) + margins(ex))) == z3.sat:
                 m = ex.solver.model()
@@ -128,6 +128,9 @@ class Transition:
                 except Exception as e:
                     ob.inconclusive.append('witness construction failed: %s' % traceback.format_exc(limit=3))
         return h
+
+    def replayable(self, label):
+        return True
 
     def scenario(self, m, schema, S):
         rows = replay.rows_from_model(m, schema, S.pre, self.strkeys)
